@@ -60,6 +60,7 @@ const (
 	mN
 	mExpr
 	mInputs
+	mEmpty // e: [[]] - an array whose element type is unknown, kept in the job's matrix object
 )
 
 type ectx struct {
@@ -95,6 +96,10 @@ func genExpr(r *hx.Rng, c *ectx) string {
 		pool = append(pool, "matrix.anything.goes", "matrix.x.*.y")
 	case mInputs:
 		pool = append(pool, "matrix.flag", "matrix.exclude", "matrix.nope")
+	case mEmpty:
+		// the matrix value as an operand beside an object filter, and as a receiver afterwards
+		pool = append(pool, "matrix.e.foo", "toJSON(matrix.e || github.event.commits.*.id)", "matrix.e.foo", "toJSON(matrix.e && github.event.commits.*.id)",
+			"matrix.e[0].foo", "toJSON(github.event.commits.*.id || matrix.e)", "matrix.e.*.foo", "matrix.e.foo", "toJSON(matrix.e || github.event.commits.*.id)")
 	}
 	for _, id := range c.stepIDs {
 		pool = append(pool, "steps."+id+".outputs.foo", "steps."+id+".conclusion", "steps."+id+".bad", "steps."+strings.ToUpper(id)+".outcome")
@@ -213,7 +218,7 @@ func genStep(r *hx.Rng, c *ectx, ind, id string, forceID bool) []string {
 }
 
 func matrixLines(r *hx.Rng, c *ectx, ind string) []string {
-	k := matrixKind(r.Intn(6))
+	k := matrixKind(r.Intn(7))
 	c.matrix = k
 	switch k {
 	case mOS:
@@ -231,6 +236,8 @@ func matrixLines(r *hx.Rng, c *ectx, ind string) []string {
 	case mInputs:
 		// the matrix is an expression whose type is an object shared with other jobs (the `inputs` context)
 		return []string{ind + "strategy:", ind + "  matrix: ${{ inputs }}"}
+	case mEmpty:
+		return []string{ind + "strategy:", ind + "  matrix:", ind + "    e: [[]]"}
 	}
 	return nil
 }
@@ -359,6 +366,7 @@ var hosts = []host{
 	{"jobs:\n  host:\n    runs-on: windows-latest\n    defaults:\n      run:\n        shell: pwsh\n    steps:\n", mNone},
 	{"jobs:\n  host:\n    runs-on: ${{ matrix.os }}\n    strategy:\n      matrix:\n        os: [ubuntu-latest, macos-latest]\n    steps:\n", mOS},
 	{"jobs:\n  first:\n    runs-on: ubuntu-latest\n    outputs:\n      o1: x\n    steps:\n      - run: echo\n  host:\n    needs: [first]\n    runs-on: ubuntu-latest\n    steps:\n", mNone},
+	{"jobs:\n  host:\n    runs-on: ubuntu-latest\n    strategy:\n      matrix:\n        e: [[]]\n    steps:\n", mEmpty},
 }
 
 // step parts are generated for a host (the matrix kind decides the expression pool)
